@@ -216,9 +216,13 @@ def run(prog, R):
             r = deep_strip(p.env.get(0))
             arith = [c for t, c in conds_of(p) if show(t) == "discr(op)"]
             eqs = [(t, truth(c)) for t, c in conds_of(p) if isinstance(t, tuple) and t[0] in ("pure", "call") and "eq" in t[1] and "implicit_cast_type" in show(t)]
-            if len(eqs) != 2:
-                continue
+            ad = dict(prog.enum_variants(A + "BinaryOp") or []).get("ArithOp")
+            if ad is None or any(c[0] == "eq" and c[1] != ad for c in arith):
+                continue        # path of a non-arithmetic operator
             n += 1
+            if len(eqs) != 2:
+                bad.append(("an arithmetic path returns without comparing both operand types with the common type", [show(t)[:60] for t, c in conds_of(p)][1:]))
+                continue
             # r = to_texpr(BinaryExpr::new(op, L, R), promoted)
             if not (r[0] == "call" and r[1].endswith("BinaryExpr::to_texpr")):
                 bad.append("shape")
